@@ -236,6 +236,8 @@ for _X in PORCELAIN_CODES:
         # and it is reported under its own name
         c.ensures(f"C11.status.porcelain_line_{_nm}_reports_path_iff_dirty_or_required", _status_line_clause(_X, _Y))
 c.ensures("C11.status.only_status_command", lambda a, res, cx: _vcs_names(cx) == ["status"])
+# a malformed line can only break the (non-porcelain) hg parser; never the git one
+c.exsures(ValueError, "C11.status.git_lines_never_break_the_parser", lambda a, exc, cx: v_ne(a.self.attrs["name"], "git"))
 c.exsures(sp.CalledProcessError)
 c.exsures(OSError)
 
